@@ -351,6 +351,183 @@ fn model_tie(out: &mut Out, spec: &Spec, sh: &Shared, run: &crate::sched::RunRes
     Some(k1)
 }
 
+// ------------------------------------------------------------------------------------------------------------------
+// Per-key attribution of a multi-key run (round 7, audit item 1: the K-C07-K1 allowance used to be ONE coarse number — any
+// claim with any `bkt.clear.cas` grant since the thread's last tail load, other keys' buckets and failed CASes included —
+// applied to every key).  The buckets of different keys share nothing, so a run over several keys is, per key, a run of the
+// one-series machine `Model/PromConc.lean`: the recording threads of that key plus, of every draining thread, the grants of
+// the ONE `clear_with` per drain pass that works on that key's bucket (Lean: `C07.src_drain_every_key`).
+// Which `clear_with` of a pass belongs to which key cannot be computed: `Registry::get_histogram_handles` collects the
+// handles into a fresh std `HashMap` (RandomState), so the order of the keys differs from pass to pass.  It is REPORTED by
+// the code: hook-C07 adds, under cfg(metrics_verif), `metrics::verif::note("prom.drain.key", key.name())` right before the
+// `clear_with` of every key in `drain_histograms_to_distributions` (a note, not a yield point: nothing parks there, the
+// schedules of every stream stay what they were); the hook below logs it per draining thread.
+// ------------------------------------------------------------------------------------------------------------------
+thread_local! {
+    /// set by a draining thread's body: (its thread index, the scene)
+    static DRAINER: std::cell::RefCell<Option<(usize, Arc<Shared>)>> = std::cell::RefCell::new(None);
+}
+fn note_hook(id: &'static str, what: &str) {
+    if id == "prom.drain.key" {
+        DRAINER.with(|d| {
+            if let Some((t, sh)) = d.borrow().as_ref() {
+                sh.visited.lock().unwrap().push((*t, what.to_string()));
+            }
+        });
+    }
+}
+
+fn is_clear_point(id: &str) -> bool {
+    id.starts_with("bkt.clear.") || id.starts_with("spin:bkt.clear.")
+}
+
+/// Per key `k`: the grant indices (into the trace) of the draining threads' steps inside a `clear_with` on key `k`'s
+/// bucket.  A draining thread's `clear_with` calls are cut out of its grants (a call begins at a `bkt.clear.load_tail`
+/// grant that does not follow a failed detach CAS of the same thread); the j-th call of a thread works on the key of the
+/// thread's j-th `prom.drain.key` note.  `None` = the notes and the trace do not fit (then nothing is attributed and the
+/// caller falls back to the coarse allowance, counting it; never seen on the unchanged tree).
+fn attribute(spec: &Spec, sh: &Shared, tr: &[(usize, &'static str)]) -> Option<Vec<Vec<usize>>> {
+    let visited = sh.visited.lock().unwrap().clone();
+    let mut per_key: Vec<Vec<usize>> = vec![vec![]; KEY_NAMES.len()];
+    for (t, role) in spec.roles.iter().enumerate() {
+        if !matches!(role, Role::Drainer { .. }) {
+            continue;
+        }
+        // the clear_with calls of thread t, each the list of its grant indices
+        let mut cw: Vec<Vec<usize>> = vec![];
+        let mut prev: &str = "";
+        for (gi, (t2, id)) in tr.iter().enumerate() {
+            if *t2 != t {
+                continue;
+            }
+            if is_clear_point(id) {
+                if *id == "bkt.clear.load_tail" && prev != "bkt.clear.cas" {
+                    cw.push(vec![]);
+                }
+                cw.last_mut()?.push(gi);
+            }
+            prev = id;
+        }
+        let keys: Vec<usize> = visited.iter().filter(|(t2, _)| *t2 == t).map(|(_, name)| KEY_NAMES.iter().position(|n| n == name)).collect::<Option<_>>()?;
+        if keys.len() != cw.len() {
+            return None;
+        }
+        for (k, grants) in keys.into_iter().zip(cw) {
+            per_key[k].extend(grants);
+        }
+    }
+    // sanity: a detach CAS (reached only on a non-null tail) on a key nobody has pushed to yet contradicts the attribution
+    for (k, grants) in per_key.iter().enumerate() {
+        for gi in grants {
+            if tr[*gi].1 == "bkt.clear.cas" && spec.prefill.get(k).copied().unwrap_or(0) == 0 {
+                let pushed_before = tr[..*gi].iter().any(|(u, id)| {
+                    matches!(*id, "bkt.push.cas_first")
+                        && matches!(spec.roles.get(*u), Some(Role::Recorder { key, .. }) | Some(Role::Registrar { key, .. }) if *key == k)
+                });
+                if !pushed_before {
+                    return None;
+                }
+            }
+        }
+    }
+    Some(per_key)
+}
+
+/// The run projected on key `k`: the bucket-machine grants of the threads recording under `k` and the draining threads'
+/// grants attributed to `k` (`attribute`), in trace order, with the ORIGINAL thread ids.
+fn projection(spec: &Spec, tr: &[(usize, &'static str)], attributed: &[usize], k: usize) -> Vec<(usize, &'static str)> {
+    let mut res = vec![];
+    for (gi, (t, id)) in tr.iter().enumerate() {
+        match spec.roles.get(*t) {
+            Some(Role::Recorder { key, .. }) | Some(Role::Registrar { key, .. }) if *key == k && is_bucket_point(id) => res.push((*t, *id)),
+            Some(Role::Drainer { .. }) if attributed.contains(&gi) => res.push((*t, *id)),
+            _ => {}
+        }
+    }
+    res
+}
+
+/// EXACT number of K1 steps (Lean `k1Step`) on key `k`'s bucket: `c05::signatures_of_trace(..).k1_exact` of the projection
+fn k1_of_key(spec: &Spec, tr: &[(usize, &'static str)], attributed: &[usize], k: usize) -> u64 {
+    crate::c05::signatures_of_trace(&projection(spec, tr, attributed, k)).k1_exact as u64
+}
+
+/// Model tie per key (round 7; before: single-key scenes only): for every key registered before the threads started, the
+/// run projected on that key is replayed on the one-series machine (`promconc run`, Driver/PromConc.lean) and must give
+/// the labels of the steps, the exact K1 count, what EVERY scheduled render showed for that key (`_count:_sum`) and what
+/// the render after the run shows.  Threads are renumbered per key: the key's recorders first, then the draining threads.
+fn model_tie_key(out: &mut Out, spec: &Spec, sh: &Shared, run: &crate::sched::RunResult, fin: &[(u64, f64)], attributed: &[usize], k: usize) -> u64 {
+    let units = |v: f64| (v * 2.0) as u64;
+    let mut ids: Vec<Option<usize>> = vec![None; spec.roles.len()];
+    let mut recs: Vec<String> = vec![];
+    for (t, r) in spec.roles.iter().enumerate() {
+        if let Role::Recorder { key, calls } = r {
+            if *key == k {
+                ids[t] = Some(recs.len());
+                let vs: Vec<String> = calls.iter().flat_map(|(v, c)| std::iter::repeat(units(*v).to_string()).take(*c)).collect();
+                recs.push(if vs.is_empty() { "-".to_string() } else { vs.join("+") });
+            }
+        }
+    }
+    let mut drains: Vec<String> = vec![];
+    for (t, r) in spec.roles.iter().enumerate() {
+        if let Role::Drainer { calls } = r {
+            ids[t] = Some(recs.len() + drains.len());
+            drains.push(calls.len().to_string());
+        }
+    }
+    let mut toks: Vec<String> = vec![];
+    let mut labels: Vec<&str> = vec![];
+    for (gi, (t, id)) in run.trace.iter().enumerate() {
+        let Some(p) = ids[*t] else { continue };
+        let is_drainer = matches!(spec.roles[*t], Role::Drainer { .. });
+        if *id == RENDER_DONE {
+            toks.push(format!("{}m", p));
+        } else if (!is_drainer && is_bucket_point(id)) || (is_drainer && (*id == "start" || attributed.contains(&gi))) {
+            toks.push(format!("{}", p));
+            labels.push(id);
+        } else {
+            toks.push(format!("{}n", p));
+        }
+    }
+    let k1 = k1_of_key(spec, &run.trace, attributed, k);
+    let all = sh.renders.lock().unwrap().clone();
+    let mut per_thread: Vec<std::collections::VecDeque<String>> = vec![Default::default(); spec.roles.len()];
+    for (t, _, _, text, _, _) in &all {
+        let c = counts_of(text).map(|c| format!("{}:{}", c[k].0, units(c[k].1))).unwrap_or_else(|e| format!("unparseable({})", e.len()));
+        per_thread[*t].push_back(c);
+    }
+    let mut shown = vec![];
+    for (t, id) in &run.trace {
+        if *id == RENDER_DONE {
+            shown.push(per_thread[*t].pop_front().unwrap_or_else(|| "missing".into()));
+        }
+    }
+    out.op(
+        &format!(
+            "promconc run {} {} {} {} {}",
+            BLOCK,
+            spec.prefill[k],
+            if recs.is_empty() { ".".to_string() } else { recs.join(",") },
+            if drains.is_empty() { ".".to_string() } else { drains.join(",") },
+            if toks.is_empty() { "-".to_string() } else { toks.join(".") }
+        ),
+        &format!(
+            "{} | k1={} | renders={} | final={}:{}",
+            labels.join("."),
+            k1,
+            if shown.is_empty() { ".".to_string() } else { shown.join(",") },
+            fin[k].0,
+            units(fin[k].1)
+        ),
+    );
+    out.count(if tied(spec) { "concurrent.replayed-on-the-Lean-model" } else { "concurrent.replayed-on-the-Lean-model(per-key projection of a multi-key run)" });
+    if k1 > 0 {
+        out.count("concurrent.runs-with-a-K1-step(Lean k1Step)");
+    }
+    k1
+}
+
 struct Shared {
     handle: metrics_exporter_prometheus::PrometheusHandle,
     /// per key: record() calls begun / returned (a `record_many(v, c)` counts c at once on both sides)
@@ -359,6 +536,8 @@ struct Shared {
     seq: AtomicU64,
     /// (thread, seq at start, done[] at start, text, started[] at end, seq at end)
     renders: Mutex<Vec<(usize, u64, Vec<u64>, String, Vec<u64>, u64)>>,
+    /// (draining thread, key name) of every `prom.drain.key` note (hook-C07), in the order they were given
+    visited: Mutex<Vec<(usize, String)>>,
 }
 
 fn build_scene(spec: &Spec) -> (Vec<Box<dyn FnOnce() + Send + 'static>>, Arc<Shared>) {
@@ -376,6 +555,7 @@ fn build_scene(spec: &Spec) -> (Vec<Box<dyn FnOnce() + Send + 'static>>, Arc<Sha
         done: (0..KEY_NAMES.len()).map(|_| AtomicU64::new(0)).collect(),
         seq: AtomicU64::new(0),
         renders: Mutex::new(vec![]),
+        visited: Mutex::new(vec![]),
     });
     let mut handles = vec![];
     for k in 0..spec.nkeys {
@@ -415,6 +595,7 @@ fn build_scene(spec: &Spec) -> (Vec<Box<dyn FnOnce() + Send + 'static>>, Arc<Sha
             }
             Role::Drainer { calls } => {
                 bodies.push(Box::new(move || {
+                    DRAINER.with(|d| *d.borrow_mut() = Some((t, sh.clone())));
                     for is_render in calls {
                         if is_render {
                             // marker grant: the grants of this render (its drain pass included) lie between this point and
@@ -432,6 +613,7 @@ fn build_scene(spec: &Spec) -> (Vec<Box<dyn FnOnce() + Send + 'static>>, Arc<Sha
                             sh.handle.run_upkeep();
                         }
                     }
+                    DRAINER.with(|d| *d.borrow_mut() = None);
                 }));
             }
         }
@@ -500,6 +682,27 @@ fn judge(out: &mut Out, spec: &Spec, sh: &Shared, run: &crate::sched::RunResult)
 }
 
 fn judge_completed(out: &mut Out, spec: &Spec, sh: &Shared, run: &crate::sched::RunResult) {
+    // ---- FIRST, before anything else touches the recorder again: a scheduled render that shows more samples of a key than
+    // record() calls had begun when it ended has counted a sample twice.  (Round 7, after seed C07-7: a double count that
+    // comes from a retired block being reachable again is followed by that block being freed twice; the render after the
+    // run — and every later drain — flushes the epoch collector and can crash the process, so the verdict on what the
+    // scheduled renders showed is written down before the next call into the exporter.)
+    {
+        let renders = sh.renders.lock().unwrap().clone();
+        for (t, _, _, text, hi, _) in &renders {
+            if let Ok(c) = counts_of(text) {
+                for k in 0..KEY_NAMES.len() {
+                    if c[k].0 > hi[k] {
+                        out.oracle_fail(
+                            "a render() concurrent with record() shows more samples than record() calls begun (a sample counted twice) [no-known-signature]",
+                            &format!("key {} thread {}: shows {} but only {} begun; spec {:?} trace {:?}", KEY_NAMES[k], t, c[k].0, hi[k], spec, run.trace),
+                        );
+                        return;
+                    }
+                }
+            }
+        }
+    }
     // ---- the render after everything finished (taken first: the model tie needs it, and it is the same whenever taken)
     let text = sh.handle.render();
     let fin = match counts_of(&text) {
@@ -509,10 +712,27 @@ fn judge_completed(out: &mut Out, spec: &Spec, sh: &Shared, run: &crate::sched::
             return;
         }
     };
-    // single-key scenes: exact K1 count (compared with the Lean model's); otherwise the coarse trace signature
-    let allowance = match model_tie(out, spec, sh, run, &fin) {
-        Some(k1) => k1,
-        None => k1_stragglers(&run.trace),
+    // K1 allowance PER KEY: the exact number of K1 steps (Lean `k1Step`) on that key's bucket, from the run projected on the
+    // key (`attribute`, `projection`); every key registered before the threads started is also replayed on the Lean model.
+    // Only when the trace cannot be attributed (counted; never seen on the unchanged tree) the old coarse number is used.
+    let allowance: Vec<u64> = if tied(spec) {
+        let k1 = model_tie(out, spec, sh, run, &fin).unwrap_or(0);
+        let mut a = vec![0; KEY_NAMES.len()];
+        a[0] = k1;
+        a
+    } else {
+        match attribute(spec, sh, &run.trace) {
+            Some(att) => {
+                out.count("concurrent.multi-key-run-attributed-per-key");
+                (0..KEY_NAMES.len())
+                    .map(|k| if k < spec.nkeys { model_tie_key(out, spec, sh, run, &fin, &att[k], k) } else { k1_of_key(spec, &run.trace, &att[k], k) })
+                    .collect()
+            }
+            None => {
+                out.count("concurrent.multi-key-run-NOT-attributed(coarse K1 allowance)");
+                vec![k1_stragglers(&run.trace); KEY_NAMES.len()]
+            }
+        }
     };
     let nk = KEY_NAMES.len();
     // what was recorded, per key
@@ -572,15 +792,15 @@ fn judge_completed(out: &mut Out, spec: &Spec, sh: &Shared, run: &crate::sched::
             // every record() that had returned before this render began is in it (up to the known stragglers) — ALSO when
             // the detach CAS of this render's drain pass failed (it is retried: `C07.conc_render_shows_completed_partial`);
             // nothing is in it that had not at least begun when it ended
-            if retried.contains(&k) && c[k].0 + allowance >= lo[k] && lo[k] > 0 {
+            if retried.contains(&k) && c[k].0 + allowance[k] >= lo[k] && lo[k] > 0 {
                 out.count("concurrent.render-shows-completed-records-after-a-failed-detach-in-its-drain(retry)");
             }
-            if c[k].0 + allowance < lo[k] {
+            if c[k].0 + allowance[k] < lo[k] {
                 out.oracle_fail(
                     "a render() concurrent with record()/render()/run_upkeep() misses samples whose record() had returned before it started [no-known-signature]",
                     &format!(
-                        "key {} thread {}: shows {} but {} record() calls had returned (K1 stragglers in the trace: {}; failed detach of this key inside this render's drain: {}); spec {:?} trace {:?}",
-                        KEY_NAMES[k], t, c[k].0, lo[k], allowance, retried.contains(&k), spec, run.trace
+                        "key {} thread {}: shows {} but {} record() calls had returned (K1 steps on this key's bucket in the trace: {}; failed detach of this key inside this render's drain: {}); spec {:?} trace {:?}",
+                        KEY_NAMES[k], t, c[k].0, lo[k], allowance[k], retried.contains(&k), spec, run.trace
                     ),
                 );
                 return;
@@ -626,6 +846,7 @@ fn judge_completed(out: &mut Out, spec: &Spec, sh: &Shared, run: &crate::sched::
     }
     // ---- after everything finished
     let mut lost_all = 0u64;
+    let mut excused = true;
     for k in 0..nk {
         if fin[k].0 > total[k] {
             out.oracle_fail(
@@ -636,6 +857,8 @@ fn judge_completed(out: &mut Out, spec: &Spec, sh: &Shared, run: &crate::sched::
         }
         let lost = total[k] - fin[k].0;
         lost_all += lost;
+        // the known bucket finding explains at most one lost sample per K1 step ON THIS KEY'S bucket
+        excused &= lost <= allowance[k];
         let diff = total_sum[k] - fin[k].1;
         let sum_ok = if lost == 0 { diff == 0.0 } else { diff >= vmin * lost as f64 && diff <= vmax * lost as f64 };
         if !sum_ok {
@@ -647,14 +870,36 @@ fn judge_completed(out: &mut Out, spec: &Spec, sh: &Shared, run: &crate::sched::
         }
     }
     if lost_all > 0 {
-        // the known bucket finding explains at most one lost sample per straggler push of the trace — a larger
-        // shortfall (or one in a trace without the shape) is not that finding
-        let tag = if lost_all <= allowance { "K1:straggler-push-on-detached-block" } else { "no-known-signature" };
+        // a larger shortfall on some key than K1 steps on that key's bucket (or one on a key without the shape) is not that finding
+        let tag = if excused { "K1:straggler-push-on-detached-block" } else { "no-known-signature" };
         out.oracle_fail(
             &format!("histogram _count after record() raced render()/run_upkeep() is not the number of samples recorded [{}]", tag),
-            &format!("lost {} (K1 stragglers in the trace: {}) want {:?} got {:?}; spec {:?} trace {:?}", lost_all, allowance, total, fin, spec, run.trace),
+            &format!("lost {} (K1 steps per key in the trace: {:?}) want {:?} got {:?}; spec {:?} trace {:?}", lost_all, allowance, total, fin, spec, run.trace),
         );
     }
+}
+
+/// grants of draining thread `d` at `spin:bkt.clear.wait` while recording thread `w` is parked between its slot claim and
+/// its publish (between the grant of its `blk.push.claim` and the grant of its `blk.push.publish`)
+fn long_stall_rounds(tr: &[(usize, &'static str)], w: usize, d: usize) -> usize {
+    let Some(a) = tr.iter().position(|(t, id)| *t == w && *id == "blk.push.claim") else { return 0 };
+    let Some(b) = tr.iter().position(|(t, id)| *t == w && *id == "blk.push.publish") else { return 0 };
+    tr[a..b].iter().filter(|(t, id)| *t == d && *id == "spin:bkt.clear.wait").count()
+}
+
+/// the shape of the hand-over scenes: recorder `w`'s hand-over CAS (`bkt.push.cas_new`) is followed by a tail load and a
+/// first-block CAS (it lost to a detach), a successful detach of `d` lies between `w`'s failed claim and that CAS, and `d`
+/// does another detach after `w`'s publish and before pinner `p` is granted for the second time (`p` still inside record())
+fn hand_over_lost_to_drain(tr: &[(usize, &'static str)], w: usize, p: usize, d: usize) -> bool {
+    let pos = |from: usize, t: usize, id: &str| tr[from..].iter().position(|(t2, id2)| *t2 == t && *id2 == id).map(|x| x + from);
+    let Some(cas_new) = pos(0, w, "bkt.push.cas_new") else { return false };
+    let Some(first) = pos(cas_new, w, "bkt.push.cas_first") else { return false };
+    let Some(publish) = pos(first, w, "blk.push.publish") else { return false };
+    let Some(d1) = pos(0, d, "bkt.clear.cas") else { return false };
+    let Some(d2) = pos(publish, d, "bkt.clear.cas") else { return false };
+    let Some(d2_end) = pos(d2, d, RENDER_DONE) else { return false };
+    let pinner_grants: Vec<usize> = tr.iter().enumerate().filter(|(_, (t, _))| *t == p).map(|x| x.0).collect();
+    d1 < cas_new && pinner_grants.len() >= 2 && pinner_grants[0] < d1 && pinner_grants[1] > d2_end
 }
 
 fn random_spec(r: &mut Rng) -> Spec {
@@ -684,7 +929,8 @@ fn random_spec(r: &mut Rng) -> Spec {
 /// Oracles, per key: every render taken DURING the run shows at least the samples whose `record()` had returned before
 /// it began and at most those begun before it ended; `_count` never goes down from one render to a later one; after
 /// everything finished `_count` is the number of samples recorded and `_sum` their sum. The known bucket finding
-/// (a push on a block that a drain detached meanwhile) excuses at most one sample per straggler push of the trace.
+/// (a push on a block that a drain detached meanwhile) excuses, PER KEY, at most one sample per K1 step on that key's bucket
+/// (exact count, `attribute` / `k1_of_key`); every key registered before the threads start is replayed on the Lean model.
 pub fn run_concurrent(cfg: &Cfg, out: &mut Out) {
     let root = Rng::new(cfg.seed ^ 0xC07C);
     let n = if cfg.thorough { 1500 } else { 300 };
@@ -697,6 +943,7 @@ pub fn run_concurrent(cfg: &Cfg, out: &mut Out) {
     // lock-free) and the deadline shrinks, so that a change which makes concurrent drains unschedulable still gets its
     // record-vs-drain interleavings examined for a failing input.
     let mut incomplete: Vec<String> = vec![];
+    metrics::verif::set_note_hook(Some(note_hook));
     for i in 0..n {
         if incomplete.len() >= 2 * MAX_INCOMPLETE {
             break;
@@ -760,19 +1007,54 @@ pub fn run_concurrent(cfg: &Cfg, out: &mut Out) {
                     Role::Drainer { calls: vec![true, true] },
                 ],
             }
-        } else if i == 22 || i == 23 {
-            // (round 4, after seed C07-8) LONG stall: a recorder of key 0 is held between its slot claim and its publish for
-            // dozens of rounds of the drain's quiescence wait (another key's recorder keeps ticking so that the waiting drain
-            // is granted again and again); the wait must last as long as the writer is in flight — a drain that gives up
-            // after a bounded number of rounds reads a block with a claimed, unpublished slot and the sample is lost
+        } else if (22..26).contains(&i) {
+            // (round 4, after seed C07-8; made deterministic in round 7) LONG stall: a recorder of key 0 is held between its
+            // slot claim and its publish while the drain pass of a render()/run_upkeep() has detached the chain and waits
+            // for that block to quiesce; a second recorder (the "ticker", 12 records) is granted between any two rounds of
+            // the wait, so that the waiting drain is granted again and again (a `spin:` point is runnable only after
+            // another thread has moved) — 40 rounds, far more than any bounded back-off; the wait must last as long as
+            // the writer is in flight — a drain that gives up after a bounded number of rounds reads a block with a
+            // claimed, unpublished slot and the sample is lost.  The drainer runs ALONE up to its first wait (the ticker
+            // starts only afterwards: none of its pushes straddles the detach, so no K1 step exists in these scenes) and
+            // the shape is checked on the trace after the run (`long_stall_rounds`).
+            //   22: two keys, ticker on the other key, render() first      23: the same, bucketed, run_upkeep() first
+            //   24: ONE key (ticker on the same key; its samples land in fresh blocks)
+            //   25: ONE key, the stalled writer sits in an OLDER block of the chain (slot 63; the ticker's first record hands
+            //       over to a new tail block before the drain starts): the wait happens at the second block of the walk
+            let one_key = i >= 24;
             Spec {
                 buckets: i == 23,
-                nkeys: 2,
-                prefill: vec![if i == 22 { 3 } else { 62 }, 0],
+                nkeys: if one_key { 1 } else { 2 },
+                prefill: match i {
+                    22 => vec![3, 0],
+                    23 => vec![62, 0],
+                    24 => vec![3],
+                    _ => vec![63],
+                },
                 roles: vec![
                     Role::Recorder { key: 0, calls: vec![(1.0, 1)] },
-                    Role::Recorder { key: 1, calls: (0..24).map(|_| (2.0, 1)).collect() },
-                    Role::Drainer { calls: vec![i == 22, true] },
+                    Role::Recorder { key: if one_key { 0 } else { 1 }, calls: (0..12).map(|_| (2.0, 1)).collect() },
+                    Role::Drainer { calls: vec![i != 23, true] },
+                ],
+            }
+        } else if (26..30).contains(&i) {
+            // (round 7, after seed C07-7) a record() whose HAND-OVER compare-exchange loses to a drain: the tail block is
+            // exactly full, the recorder's claim fails and it is parked at `bkt.push.cas_new`; a whole drain pass detaches,
+            // folds and retires the chain; the recorder's CAS fails, it loads the (null) tail again and installs a FIRST
+            // block.  The next render must show the 64 old samples once and the new one.  A third thread (the "pinner") is
+            // parked INSIDE `record()` (epoch guard pinned, before its tail load) from before the first drain until after
+            // the second: while it is pinned the epoch collector cannot reclaim the retired block, so a block that became
+            // reachable again is READ again (a double count the oracles see) instead of being freed twice first.
+            //   26/27: one key (pinner on the same key), first drain run_upkeep() / render()   28/29: pinner on a second key
+            let two = i >= 28;
+            Spec {
+                buckets: i == 29,
+                nkeys: if two { 2 } else { 1 },
+                prefill: if two { vec![64, 0] } else { vec![64] },
+                roles: vec![
+                    Role::Recorder { key: 0, calls: vec![(1.0, 1)] },
+                    Role::Recorder { key: if two { 1 } else { 0 }, calls: vec![(2.0, 1)] },
+                    Role::Drainer { calls: vec![i % 2 == 1, true] },
                 ],
             }
         } else {
@@ -822,15 +1104,31 @@ pub fn run_concurrent(cfg: &Cfg, out: &mut Out) {
             sch.extend(vec![2; 80]);
             out.count("concurrent.corpus:failed-detach-is-retried-two-keys");
         }
-        if (i == 22 || i == 23) && !degraded {
-            sch.extend(vec![0; 3]); // recorder of key 0: start, load tail, claim → parked before its publish
-            for _ in 0..70 {
-                sch.push(2); // the drain pass: reaches key 0's block and waits for it to quiesce …
-                sch.push(1); // … while the other key's recorder keeps making progress
+        if (22..26).contains(&i) && !degraded {
+            sch.extend(vec![0; 3]); // the writer: start, load tail, claim → parked before its publish
+            if i == 25 {
+                sch.extend(vec![1; 7]); // the ticker's first record: start, tail load, failed claim, hand-over CAS, claim, publish, gen
             }
+            sch.extend(vec![2; 40]); // the drain pass runs alone up to its first wait on the writer's block (the rest is skipped)
+            for _ in 0..40 {
+                sch.push(1); // the ticker moves …
+                sch.push(2); // … and the waiting drain is granted again
+            }
+            sch.extend(vec![1; 30]); // the ticker finishes
             sch.extend(vec![0; 6]); // the stalled writer publishes and finishes
             sch.extend(vec![2; 80]);
             out.count("concurrent.corpus:long-stalled-writer");
+        }
+        if (26..30).contains(&i) && !degraded {
+            sch.push(1); // the pinner: start → inside record(), pinned, parked before its tail load
+            sch.extend(vec![0; 3]); // start, tail load, claim on the full block fails → parked at its hand-over CAS
+            // the first drain pass, whole: start, (render's begin marker,) tail load, detach, quiesced, read, next(, the
+            // render's end marker) — and not yet the tail load of the second pass (its begin marker comes first)
+            sch.extend(vec![2; if i % 2 == 1 { 8 } else { 6 }]);
+            sch.extend(vec![0; 6]); // hand-over CAS fails, tail load (null), first-block CAS, claim, publish, generation
+            sch.extend(vec![2; 60]); // the second drain pass (a render) while the pinner is still pinned
+            sch.extend(vec![1; 8]);
+            out.count("concurrent.corpus:hand-over-loses-to-a-drain(pinned)");
         }
         if targeted {
             let nrec = nt - 1;
@@ -850,6 +1148,15 @@ pub fn run_concurrent(cfg: &Cfg, out: &mut Out) {
         }
         let (bodies, sh) = build_scene(&spec);
         let run = crate::sched::run_deadline(bodies, &sch, if degraded { 3 } else { RUN_DEADLINE_S });
+        if (22..26).contains(&i) && !degraded && !run.timed_out && !run.deadlock {
+            // the shape the scene is for: the drain was re-granted at its quiescence wait more than a dozen times while
+            // the writer was parked between its claim and its publish
+            let rounds = long_stall_rounds(&run.trace, 0, 2);
+            out.count(if rounds > 12 { "concurrent.corpus:long-stalled-writer.shape-reached(>12 wait rounds while the writer is in flight)" } else { "concurrent.corpus:long-stalled-writer.SHAPE-NOT-REACHED" });
+        }
+        if (26..30).contains(&i) && !degraded && !run.timed_out && !run.deadlock {
+            out.count(if hand_over_lost_to_drain(&run.trace, 0, 1, 2) { "concurrent.corpus:hand-over-loses-to-a-drain.shape-reached(second drain while pinned)" } else { "concurrent.corpus:hand-over-loses-to-a-drain.SHAPE-NOT-REACHED" });
+        }
         if inside {
             out.count("concurrent.targeted:records-entirely-inside-a-drain-pass");
         }
@@ -903,6 +1210,7 @@ pub fn run_concurrent(cfg: &Cfg, out: &mut Out) {
             }
         }
     }
+    metrics::verif::set_note_hook(None);
     out.case("concurrent stream end");
     if incomplete.is_empty() {
         out.op("promconc stream complete", "complete");
